@@ -97,7 +97,10 @@ type wireCase struct {
 	Ops   []opSpec `json:"ops,omitempty"`
 	// encrypted receiver: crypto-state blob to import first (oracle only, no model comparison)
 	Blob []byte `json:"blob,omitempty"`
-	Note string `json:"note,omitempty"`
+	// the blob carries a key but leaves encryption OFF: the stream must behave exactly like
+	// a cleartext one, and is compared with the cleartext model
+	KeyedPlain bool   `json:"keyedPlain,omitempty"`
+	Note       string `json:"note,omitempty"`
 }
 
 type wireObs struct {
@@ -206,6 +209,10 @@ func runWire(wc *wireCase) (wireObs, []failure) {
 	if mc.maxDepth > 64 {
 		fails = append(fails, failure{"recursion", fmt.Sprintf("%s: call stack %d frames deep while reading a %d-byte connection (one stack frame per wire frame?)", what, mc.maxDepth, len(data))})
 	}
+	if wc.Blob != nil && !wc.KeyedPlain && (wc.Op == "frame" || wc.Op == "frame0") && out.HasVal && len(out.Val)+5 > mc.pos {
+		// hypothesis of C13_frames_total_bounded: decryption never lengthens its input
+		fails = append(fails, failure{"open-lengthens", fmt.Sprintf("%s delivered %d plaintext bytes from %d wire bytes", what, len(out.Val), mc.pos)})
+	}
 	if mc.reads > 4*len(data)+64 {
 		fails = append(fails, failure{"spin", fmt.Sprintf("%s made %d reads on a %d-byte connection", what, mc.reads, len(data))})
 	}
@@ -252,7 +259,7 @@ func addWireCase(c *core.Ctx, wc *wireCase, fam string) bool {
 		return false
 	}
 	c.Count(fmt.Sprintf("wire-%s-cls%d", wc.Op, ob.out.Cls))
-	if wc.Blob != nil {
+	if wc.Blob != nil && !wc.KeyedPlain {
 		c.Evaluated(1) // oracle only
 		return len(fails) == 0
 	}
@@ -577,6 +584,19 @@ func genEncryptedWire(c *core.Ctx) {
 		for _, os := range opsets {
 			addWireCase(c, &wireCase{Data: []seg{{Lit: in}}, Op: os.op, Ops: os.ops, Blob: rblob, Chunk: c.Rng.Intn(5)}, "enc-"+os.op)
 		}
+	}
+	// a stream that holds a key but is NOT encrypting (SetCryptoMode(false), or between
+	// secrets): same bytes as the cleartext cases, compared with the cleartext model
+	plainBlob := blobFor(byte(stream.VerifCsFlagAuthenticated|stream.VerifCsFlagFinSendAAD|stream.VerifCsFlagFinRecvAAD), key, ivB, ivA, 5, 3, dig, dig, nil)
+	for _, op := range []string{"frame", "frame0", "start", "complete"} {
+		for _, w := range [][]byte{hdr(1, 0), hdr(0, 0), frame(1, []byte("abc")), append(frame(0, []byte("ab")), frame(1, nil)...), append(hdr(0, 0), frame(2, []byte("x"))...),
+			hdr(1, maxMsg+1), hdr(1, maxMsg+32), hdr(11, 1), frame(1, core.Payload(1, 40))[:20]} {
+			addWireCase(c, &wireCase{Data: []seg{{Lit: w}}, Op: op, Blob: plainBlob, KeyedPlain: true}, "keyed-plain")
+		}
+	}
+	for _, ops := range [][]opSpec{{{Op: "str"}, {Op: "int"}}, {{Op: "ad", N: 64}}, {{Op: "xkey"}}} {
+		pl := append(wireStr(false, []byte("hello")), i64(7)...)
+		addWireCase(c, &wireCase{Data: []seg{{Lit: msgFrames(pl, []int{2})}}, Op: "ops", Ops: ops, Blob: plainBlob, KeyedPlain: true}, "keyed-plain")
 	}
 	// hostile plaintext inside authentic frames: negative / huge string lengths on a really encrypted stream
 	for _, l := range []int64{-1, -1 << 31, 1<<31 - 1, 1 << 31, 40 << 20} {
